@@ -34,7 +34,7 @@ TIERS = {
     "C13": {"quick": (90, 100), "thorough": (6000, 1500)},
     "C14": {"quick": (50, 100), "thorough": (5000, 1500)},
     "C15": {"quick": (350, 100), "thorough": (15000, 1500)},
-    "C20": {"quick": (60, 130), "thorough": (2500, 1500)},
+    "C20": {"quick": (110, 110), "thorough": (6000, 1500)},
 }
 
 
